@@ -49,6 +49,8 @@ ASSUMPTIONS = [
     "values handed to the eduPersonTargetedID special case are scalars (dictionary items with "
     "NameQualifier/SPNameQualifier are not modelled on the sending side)",
     "extension elements inside received AttributeValues are saml:NameID elements (what to_eptid_value produces)",
+    "eduPersonTargetedID values are text that XML 1.0 carries unchanged (ava_from serialises and re-parses the "
+    "NameID elements); with XML transport the same holds for every value",
 ]
 EXHAUSTIVE = False
 PARALLEL = False
@@ -374,6 +376,28 @@ def _shared_format_loss(maps, fmt, wire):
     return q not in _fro_keys(same[-1]) and any(q in _fro_keys(m) for m in same[:-1])
 
 
+def _shared_format_effects(case, maps):
+    """For a wire statement: the local names that get lost because their attribute is known only to an
+    earlier map of a shared name format, and (when unknown attributes are allowed) the wire names under
+    which those attributes are passed on instead."""
+    lost, spill = set(), set()
+    for a in case["attrs"]:
+        nf = a.get("nf")
+        if nf is None and case.get("xml"):
+            nf = UNSPEC
+        if nf is None or a.get("name") is None or not _shared_format_loss(maps, nf, a["name"]):
+            continue
+        q = a["name"].strip().lower()
+        for m in [x for x in maps if is_map(x) and x["identifier"] == nf][:-1]:
+            fro = {x.lower(): y for x, y in m["fro"].items()} if m["fro"] is not None else \
+                {v.lower(): x.lower() for x, v in m["to"].items()}
+            if q in fro:
+                lost.add(fro[q])
+        if case["allow"]:
+            spill.add(a["name"].strip())
+    return lost, spill
+
+
 def _sent_wire(m, key):
     to = {k.lower(): v for k, v in _to_raw(m).items()} if m["to"] is not None else _to_raw(m)
     return to.get(key.lower())
@@ -398,25 +422,14 @@ def finding_key(case, impl, lean):
                     _shared_format_loss(maps, m["identifier"], (m["to"] or {}).get(name) or _sent_wire(m, name)):
                 k = KEY_SHARED
             elif case["op"] == "roundtrip" and kind == "value-lost" and _sent_wire(m, name) == EPTID_OID and \
-                    vals is not None and "list" in vals and "" in vals["list"]:
-                k = KEY_EPTID
-        elif case["op"] == "to_local" and kind in ("known-attribute-missing", "unexpected-attribute"):
-            for a in case["attrs"]:
-                nf = a.get("nf")
-                if nf is None and case.get("xml"):
-                    nf = UNSPEC
-                if nf is None or a.get("name") is None or not _shared_format_loss(maps, nf, a["name"]):
-                    continue
-                if kind == "unexpected-attribute":  # passed on under its wire name because unknown attributes are allowed
-                    if case["allow"] and a["name"].strip() == name:
-                        k = KEY_SHARED
-                    continue
-                q = a["name"].strip().lower()
-                for m in [x for x in maps if is_map(x) and x["identifier"] == nf][:-1]:
-                    fro = {x.lower(): y for x, y in m["fro"].items()} if m["fro"] is not None else \
-                        {v.lower(): x.lower() for x, v in m["to"].items()}
-                    if fro.get(q) == name:
-                        k = KEY_SHARED
+                    any(_sent_wire(m, k2) == EPTID_OID and "list" in v2 and "" in v2["list"] for k2, v2 in case["ava"]):
+                k = KEY_EPTID  # (entries that collapse to the same local name are reported together)
+        elif case["op"] == "to_local":
+            lost, spill = _shared_format_effects(case, maps)
+            if kind in ("known-attribute-missing", "values-differ") and name in lost:
+                k = KEY_SHARED
+            elif kind in ("unexpected-attribute", "values-differ") and name in spill:
+                k = KEY_SHARED
         if k is None:
             return None
         keys.add(k)
@@ -646,7 +659,10 @@ def gen_identity(rng, maps, xml, strings_only, allow_empty_eptid):
     ava = {}
     for _ in range(rng.choice([1, 1, 1, 2, 3, 5])):
         c = rng.randrange(10)
-        if pool and c < 6:
+        ept = [x for x in pool if x.lower() in (EPTID_LOCAL.lower(), "eptid")]
+        if ept and rng.random() < 0.08:
+            k = rng.choice(ept)
+        elif pool and c < 6:
             k = rng.choice(pool)
         elif pool and c < 8:
             k = case_variant(rng, rng.choice(pool))
@@ -694,43 +710,49 @@ def gen_wire_value(rng, xml):
 
 
 def gen_statement(rng, maps, xml):
+    """A wire statement: name format, name and values of every attribute are drawn independently."""
     eff = [m for m in maps if is_map(m)]
     attrs = []
     for _ in range(rng.choice([1, 1, 1, 2, 3, 4])):
-        c = rng.randrange(20)
         m = rng.choice(eff) if eff else None
         known = list(_fro_names(m)) if m else []
-        nf = m["identifier"] if m else None
-        name = rng.choice(known) if known else "urn:oid:2.5.4.99"
-        fn = rng.choice([None, "Friendly", " fn "])
-        if c < 9:
-            pass  # known name, the map's format
-        elif c == 9:
-            name = case_variant(rng, name)
-        elif c == 10:
-            name = rng.choice([" ", "\t", ""]) + name + rng.choice([" ", "\n"])
-        elif c == 11:
-            name = rng.choice(["urn:oid:2.5.4.99", "unknownName", " padded-unknown ", ""])
-        elif c == 12:
-            nf = rng.choice(["urn:x-c17:format:zzz", "", BASIC])
-        elif c == 13:
+        c = rng.randrange(100)
+        if c < 60:
+            nf = m["identifier"] if m else "urn:x-c17:format:zzz"
+        elif c < 68:
+            nf = rng.choice([x["identifier"] for x in eff]) if eff else UNSPEC  # possibly another map's format
+        elif c < 76:
+            nf = rng.choice(["urn:x-c17:format:zzz", BASIC, URI.upper(), URI + " "])
+        elif c < 82:
+            nf = ""
+        elif c < 90:
             nf = UNSPEC
-        elif c == 14:
+        else:
             nf = None
-        elif c == 15:
-            nf = rng.choice([x["identifier"] for x in eff]) if eff else UNSPEC  # another map's format
-        elif c == 16:
+        fn = rng.choice([None, "Friendly", " fn "])
+        c = rng.randrange(100)
+        name = rng.choice(known) if known else "urn:oid:2.5.4.99"
+        if c < 60:
+            pass
+        elif c < 68:
+            name = case_variant(rng, name)
+        elif c < 74:
+            name = rng.choice([" ", "\t", ""]) + name + rng.choice([" ", "\n"])
+        elif c < 88:
+            name = rng.choice(["urn:oid:2.5.4.99", "unknownName", " padded-unknown ", "", "Friendly"])
+        elif c < 94:
             name = None
-        elif c == 17:
+            fn = rng.choice(["Friendly", " fn ", rng.choice(known) if known else "x"])
+        else:
             name, fn = None, None
-        elif c == 18:
-            nf, name = UNSPEC, "unknownName"
         values = [gen_wire_value(rng, xml) for _ in range(rng.choice([0, 1, 1, 2, 3]))]
-        if c == 19 and not xml:
+        if not xml and rng.random() < 0.06:
             values = None
-        if name is not None and name.lower() != ascii_lower(name):
-            continue
-        attrs.append({"name": name, "nf": nf, "fn": fn, "values": values})
+        for s_ in (name, fn):
+            if s_ is not None and s_.lower() != ascii_lower(s_):
+                break
+        else:
+            attrs.append({"name": name, "nf": nf, "fn": fn, "values": values})
     return attrs
 
 
@@ -795,13 +817,33 @@ def gen_strops(rng, tier):
         for s in (w, w + "x", "x" + w, w + "x" + w, w + w + "X y" + w + " ", "a" + w + "b"):
             if s.lower() == ascii_lower(s):
                 yield {"op": "strops", "s": s, "i": rng.choice([0, 1, -1, 9, 10, -10, 255, 256, 10 ** 18, -(10 ** 30)])}
-    for _ in range(150 if tier == "quick" else 3000):
+    for _ in range(400 if tier == "quick" else 4000):
         s = "".join(rng.choice(PY_WS + NOT_WS + WORDS + ["A", "Z", "a", "z", "@", "[", "`", "{", "É", "é"]) for _ in range(rng.randint(0, 6)))
         if s.lower() == ascii_lower(s):
             yield {"op": "strops", "s": s, "i": rng.randint(-10 ** rng.randint(1, 25), 10 ** rng.randint(1, 25))}
 
 
+XML_UNSAFE = "\r\x0b\x0c\x1c\x1d\x1e\x1f"
+
+
+def _xml_safe_eptid(case):
+    """ava_from serialises and re-parses the NameID elements of the eduPersonTargetedID special case even
+    when the attributes travel as objects: its values must be text XML 1.0 can carry unchanged."""
+    for _k, v in case.get("ava") or []:
+        if _k.lower() in (EPTID_LOCAL.lower(), "eptid"):
+            if "list" in v:
+                v["list"] = [x.translate({ord(ch): None for ch in XML_UNSAFE}) if isinstance(x, str) else x for x in v["list"]]
+            elif isinstance(v.get("bare"), str):
+                v["bare"] = v["bare"].translate({ord(ch): None for ch in XML_UNSAFE})
+    return case
+
+
 def gen_cases(rng, tier):
+    for c in _gen_cases(rng, tier):
+        yield _xml_safe_eptid(c)
+
+
+def _gen_cases(rng, tier):
     yield from gen_strops(rng, tier)
     yield from gen_bundled_exhaustive(rng, tier)
     raw = _bundled_raw()
@@ -809,7 +851,7 @@ def gen_cases(rng, tier):
     full = list(range(n))
 
     # random identities / statements against the bundled set and its subsets
-    for _ in range(400 if tier == "quick" else 6000):
+    for _ in range(1500 if tier == "quick" else 25000):
         idx = rng.choice([full, full, full, [rng.randrange(n)], sorted(rng.sample(full, rng.randint(2, n))), [1, 2, 3, 4][:n]])
         maps = [{"identifier": raw[i]["identifier"], "to": raw[i].get("to"), "fro": raw[i].get("fro")} for i in idx]
         c = rng.randrange(3)
@@ -833,7 +875,7 @@ def gen_cases(rng, tier):
                    "ava": ava, "xml": xml and xml_safe_identity(ava)}
 
     # random custom map sets
-    for _ in range(150 if tier == "quick" else 3000):
+    for _ in range(500 if tier == "quick" else 6000):
         maps_j, feature = gen_custom_set(rng)
         via = "from_dict" if rng.random() < 0.6 else "module"
         base = {"maps": {"custom": maps_j}, "via": via}
